@@ -1,9 +1,12 @@
 """Per-property configuration: which generator feeds it, which verdict tags decide it."""
-import os, json, re, glob
+import os, json, re, glob, math
 import gen
 from gen import Case, bits
 
 def n_cases(tier, quick, thorough):
+    # "search": the enlarged run made when a proof obligation or the correspondence broke -- bounded so that the check stays in minutes
+    if tier == "search":
+        return min(thorough, 3 * quick)
     return thorough if tier == "thorough" else quick
 
 # ------------------------------------------------------------------ generators
@@ -881,9 +884,191 @@ def gen_C19_scaled(r, tier):
     return out
 PROPS["C19"]["gen"] = gen_C19_scaled
 
+def _incircle(a, b, c, q):
+    ax, ay = a[0] - q[0], a[1] - q[1]; bx, by = b[0] - q[0], b[1] - q[1]; cx, cy = c[0] - q[0], c[1] - q[1]
+    return ((ax * ax + ay * ay) * (bx * cy - by * cx) - (bx * bx + by * by) * (ax * cy - ay * cx) + (cx * cx + cy * cy) * (ax * by - ay * bx))
+def _orient(a, b, c):
+    return (b[0] - a[0]) * (c[1] - a[1]) - (b[1] - a[1]) * (c[0] - a[0])
+def _lattice_circle(n):
+    out = []
+    k = int(math.isqrt(n))
+    for x in range(-k, k + 1):
+        y2 = n - x * x
+        y = int(math.isqrt(y2))
+        if y * y == y2:
+            out.append((x, y))
+            if y:
+                out.append((x, -y))
+    return out
+
+def gen_C19_cocirc(r, tier):
+    """natural-neighbour queries that are cocircular, or nearly so, with faces of the triangulation:
+    (A) vertices on a lattice circle and queries a few representable steps inside / outside / on that circle,
+    (B) a lattice triangle and the lattice points with the smallest non-zero in-circle determinants around its circumcircle."""
+    out = []
+    for i in range(n_cases(tier, 160, 1600)):
+        f32 = r.chance(0.6)
+        scalar = "f32" if f32 else "f64"
+        c = Case("k%d" % i, "dt", scalar, r.choice(gen.HINTS))
+        d = 1
+        if r.chance(0.5):
+            n = r.choice([25, 65, 85, 125, 325, 425, 1105])
+            circ = _lattice_circle(n)
+            r.shuffle(circ)
+            k = r.range(3, min(7, len(circ) - 2))
+            verts, others = circ[:k], circ[k:]
+            if _orient(verts[0], verts[1], verts[2]) == 0:
+                continue
+            sh = (r.range(-5, 5), r.range(-5, 5)) if r.chance(0.5) else (0, 0)
+            sc = 2.0 ** r.choice([0, 0, 0, 3, -3, 10, -10])
+            rad = int(math.isqrt(n)) + 1
+            box = [(4 * rad + r.range(0, 3), 4 * rad + r.range(0, 3)), (-4 * rad - r.range(0, 3), 4 * rad), (-4 * rad, -4 * rad - r.range(0, 3)), (4 * rad, -4 * rad)]
+            pts = verts + box
+            r.shuffle(pts)
+            for (x, y) in pts:
+                c.ins((x + sh[0]) * sc, (y + sh[1]) * sc, d); d += 1
+            c.meta = {"style": "cocirc-ulp", "kind": "dt", "scalar": scalar, "hint": c.hint, "n": n}
+            for (x, y) in others[:10]:
+                fx, fy = (x + sh[0]) * sc, (y + sh[1]) * sc
+                for _ in range(2):
+                    j = r.choice([0, 1, 1, 2, 3, 5, -1, -2])      # steps towards the centre (negative: away)
+                    qx, qy = fx, fy
+                    if abs(x) >= abs(y):
+                        qx = gen.ulp_step(fx, -j if x > 0 else j, f32)
+                    else:
+                        qy = gen.ulp_step(fy, -j if y > 0 else j, f32)
+                    c.add("nnw", bits(qx), bits(qy))
+                    if r.chance(0.3):
+                        c.add("bary", bits(qx), bits(qy))
+        else:
+            R = r.choice([100, 200, 400, 800]) if f32 else r.choice([400, 3000, 20000])
+            a = (r.range(0, R), r.range(0, R)); b = (r.range(0, R), r.range(0, R)); cc = (r.range(0, R), r.range(0, R))
+            o = _orient(a, b, cc)
+            if o == 0:
+                continue
+            if o < 0:
+                b, cc = cc, b; o = -o
+            # circumcentre = a + (ux, uy) / (2 o)
+            bx, by, cx, cy = b[0] - a[0], b[1] - a[1], cc[0] - a[0], cc[1] - a[1]
+            ux = (bx * bx + by * by) * cy - (cx * cx + cy * cy) * by
+            uy = (cx * cx + cy * cy) * bx - (bx * bx + by * by) * cx
+            ctr = (a[0] + ux / (2.0 * o), a[1] + uy / (2.0 * o))
+            rad = math.hypot(ux, uy) / (2.0 * o)
+            if rad > 1.5 * R:
+                continue
+            cands = []
+            x0, x1 = int(math.ceil(ctr[0] - rad)), int(math.floor(ctr[0] + rad))
+            xs = range(x0, x1 + 1) if x1 - x0 < 3000 else [r.range(x0, x1) for _ in range(3000)]
+            for x in xs:
+                h2 = rad * rad - (x - ctr[0]) ** 2
+                if h2 < 0:
+                    continue
+                h = math.sqrt(h2)
+                for y in {int(math.floor(ctr[1] + h)), int(math.ceil(ctr[1] + h)), int(math.floor(ctr[1] - h)), int(math.ceil(ctr[1] - h))}:
+                    q = (x, y)
+                    if q in (a, b, cc):
+                        continue
+                    if _orient(a, b, q) > 0 and _orient(b, cc, q) > 0 and _orient(cc, a, q) > 0:
+                        continue
+                    cands.append((_incircle(a, b, cc, q), q))
+            pos = sorted([t for t in cands if t[0] > 0])[:8]
+            zero = [t for t in cands if t[0] == 0][:2]
+            neg = sorted([t for t in cands if t[0] < 0], reverse=True)[:2]
+            m = int(4 * max(rad, R))
+            ic = (int(ctr[0]), int(ctr[1]))
+            box = [(ic[0] + m, ic[1] + m + r.range(0, 5)), (ic[0] - m - r.range(0, 5), ic[1] + m), (ic[0] - m, ic[1] - m), (ic[0] + m + r.range(0, 5), ic[1] - m)]
+            pts = [a, b, cc] + box
+            for _ in range(r.range(0, 3)):
+                e = (r.range(ic[0] - m, ic[0] + m), r.range(ic[1] - m, ic[1] + m))
+                if _incircle(a, b, cc, e) < 0:
+                    pts.append(e)
+            r.shuffle(pts)
+            for (x, y) in pts:
+                c.ins(float(x), float(y), d); d += 1
+            c.meta = {"style": "cocirc-lattice", "kind": "dt", "scalar": scalar, "hint": c.hint, "R": R}
+            for (_, q) in pos + zero + neg:
+                c.add("nnw", bits(float(q[0])), bits(float(q[1])))
+        out.append(c)
+    return out
+PROPS["C19"]["gen"] = gen_union(gen_C19_scaled, gen_C19_cocirc)
+
 PROPS["C15"]["model"] = True
 PROPS["C15"]["tags"] = PROPS["C15"]["tags"] + ["corr"]
 PROPS["C01"]["model"] = True
 PROPS["C01"]["tags"] = PROPS["C01"]["tags"] + ["corr"]
 PROPS["C05"]["model"] = True
 PROPS["C05"]["tags"] = PROPS["C05"]["tags"] + ["corr"]
+
+def gen_line_rm(quick, thorough, kinds=("dt", "cdt"), query=("hull",)):
+    """degenerate (all vertices on one line) triangulations that shrink and regrow: sorted and unsorted insertion orders,
+    removal of end and inner vertices in every order down to 0 vertices, a query after every removal"""
+    def g(r, tier):
+        out = []
+        for i in range(n_cases(tier, quick, thorough)):
+            kind, scalar, hint = gen.pick_cfg(r, kinds, 0.15)
+            c = Case("l%d" % i, kind, scalar, hint)
+            c.meta = {"style": "line-rm", "kind": kind, "scalar": scalar, "hint": hint}
+            dx, dy = r.choice([(1, 0), (0, 1), (1, 1), (2, -1), (3, 5), (-1, 2)])
+            ox, oy = r.range(-4, 4), r.range(-4, 4)
+            n = r.range(3, 7)
+            ts = sorted(set(r.range(-6, 6) for _ in range(n + 2)))[:n]
+            if r.chance(0.5):
+                pass
+            elif r.chance(0.5):
+                ts.reverse()
+            else:
+                r.shuffle(ts)
+            d = 1
+            for t in ts:
+                c.ins(float(ox + t * dx), float(oy + t * dy), d); d += 1
+            live = len(ts)
+            for _ in range(r.range(2, 8)):
+                k = r.below(10)
+                if k < 6 and live > 0:
+                    sel = r.choice([0, live - 1, r.below(live), r.below(live)])
+                    c.add("rm", "v%d" % sel); live -= 1     # modulo selector: live may over-estimate after duplicates
+                elif k < 8:
+                    t = r.range(-8, 8)
+                    c.ins(float(ox + t * dx), float(oy + t * dy), d); d += 1; live += 1   # may be a duplicate: live is then an over-estimate
+                else:
+                    c.ins(float(ox + r.range(-3, 3)), float(oy + r.range(-3, 3)), d); d += 1; live += 1
+                for q in query:
+                    if q == "hull":
+                        c.add("hull")
+                    elif q in ("loc", "nn"):
+                        t = r.range(-8, 8)
+                        c.add(q, bits(float(ox + t * dx)), bits(float(oy + t * dy)))
+            out.append(c)
+        # exhaustive part: n sorted collinear vertices (both directions), every sequence of 3 removals by raw index, a query after each
+        import itertools
+        k = 0
+        for n in ((4,) if tier == "quick" else (4, 5, 6)):
+            for rev in (False, True):
+                for seq in itertools.product(*[range(n - j) for j in range(3)]):
+                    kind, scalar, hint = gen.pick_cfg(r, kinds, 0.1)
+                    c = Case("x%d" % k, kind, scalar, hint); k += 1
+                    c.meta = {"style": "line-rm-exhaustive", "kind": kind, "scalar": scalar, "hint": hint}
+                    ts = list(range(n))
+                    if rev:
+                        ts.reverse()
+                    for d, t in enumerate(ts):
+                        c.ins(float(t), 0.0, d + 1)
+                    for sel in seq:
+                        c.add("rm", "V%d" % sel)
+                        for q in query:
+                            if q == "hull":
+                                c.add("hull")
+                            elif q in ("loc", "nn"):
+                                c.add(q, bits(float(r.range(-1, n))), bits(0.0))
+                    out.append(c)
+        return out
+    return g
+
+PROPS["C14"]["gen"] = gen_union(PROPS["C14"]["gen"], gen_line_rm(150, 1500))
+PROPS["C11"]["gen"] = gen_union(PROPS["C11"]["gen"], gen_line_rm(150, 1500, query=()))
+PROPS["C02"]["gen"] = gen_union(PROPS["C02"]["gen"], gen_line_rm(100, 1000, query=("loc",)))
+
+# an undocumented panic or hang of an operation on valid arguments leaves the property's observables undefined: every
+# state-based property counts it (C07 is the property about panics as such; here it keeps a panic from hiding a broken state)
+for _p in ("C01", "C02", "C03", "C04", "C10", "C14"):
+    PROPS[_p]["events"] = True
